@@ -139,6 +139,8 @@ type TypeDesc struct {
 	// HasMultiMap: may contain maps with more than one entry, so its encoding
 	// is not byte-reproducible (map iteration order has no seam).
 	HasMultiMap bool
+	// GCOnly: a GC shape with Probe fields, used by C11 only.
+	GCOnly bool
 	NewEnc      func(w io.Writer, c avro.Compression, blockSize int) (EncHandle, error)
 }
 
@@ -190,7 +192,7 @@ func typeByName(name string) *TypeDesc {
 func typeNames(filter func(*TypeDesc) bool) []string {
 	var out []string
 	for n, d := range typeTable {
-		if filter == nil || filter(d) {
+		if (filter == nil && !d.GCOnly) || (filter != nil && filter(d)) {
 			out = append(out, n)
 		}
 	}
